@@ -29,10 +29,11 @@ func (r *c14Ref) get(name string) (int64, bool) {
 	return 0, false
 }
 
+//verif:opts maxpaths_thorough=900000
 func VerifC14_stack_scoping() {
 	steps := 4
 	if verifTier() > 0 {
-		steps = 6
+		steps = 5 // (6 exhausted the path budget: not registered)
 	}
 	st := NewStack()
 	ref := &c14Ref{sets: [][]map[string]int64{{map[string]int64{}}}}
